@@ -34,8 +34,13 @@ def main():
     if replay:
         data = json.load(open(replay))
         return mod.replay(ctx, data)
+    import time as _t
+    _t0 = _t.time()
+    _tr = lambda w: os.environ.get('VERIF_TRACE_CALLS') and sys.stderr.write('[phase] %s %.1fs\n' % (w, _t.time() - _t0))
     info = lib.build()
+    _tr('build')
     proof = lib.check_props_file(prop)
+    _tr('props')
     proof['checker_cmd'] = ('cd coq && make -k -j16 (coq_makefile, full .vo) && '
                             'coqc -R . Tdda Props/%s.v (Print Assumptions per theorem)' % prop)
     if info['translator_error']:
@@ -61,18 +66,21 @@ def main():
     ctx.model_ok = info['ok_model']
     if not info['ok_model']:
         proof['broken'].append('extracted model did not build; correspondence not run')
+    _tr('before run')
     try:
         mod.run(ctx)
     except Exception:
         tb = traceback.format_exc()
         print(tb)
         proof['broken'].append('harness error: ' + tb[-800:])
+    _tr('run done')
     try:
         run_witnesses(ctx)
     except Exception:
         tb = traceback.format_exc()
         print(tb)
         proof['broken'].append('harness error (witnesses): ' + tb[-800:])
+    _tr('witnesses done')
     return ctx.finish(proof)
 
 
